@@ -6,6 +6,8 @@ import Driver.Aof
 import Driver.Text
 import Driver.Elect
 import Driver.Repl
+import Driver.Conn
+import Driver.Engine2
 /-! `slockmodel`: reads one operation per line on stdin, prints the model's observation per line. -/
 namespace Driver
 
@@ -16,7 +18,7 @@ def dispatch (line : String) : String :=
   | "#" :: _ => line
   | _ =>
     match handleCodec toks <|> handleQueue toks <|> handleValue toks <|> handleEngine toks <|> handleAof toks
-        <|> handleText toks <|> handleElect toks <|> handleRepl toks with
+        <|> handleText toks <|> handleElect toks <|> handleRepl toks <|> handleConn toks <|> handleEngine2 toks with
     | some r => r
     | none => "bad-op"
 
